@@ -1528,7 +1528,7 @@ static void plan_add(int kind, uint64_t arg)
 static void vf_init(void)
 {
     /* interleave the three groups so that every worker gets a share of each */
-    uint64_t const mf_reps = vf.tier ? 300 : 12, op_cases = vf.tier ? 4000 : 160, pid_reps = vf.tier ? 120 : 5;
+    uint64_t const mf_reps = vf.tier ? 750 : 12, op_cases = vf.tier ? 10000 : 160, pid_reps = vf.tier ? 300 : 5;
     uint64_t rep;
     plan_add(K_OP_GRID, 0);
     for (rep = 0; rep < mf_reps; ++rep)
